@@ -983,27 +983,23 @@ where
     type Item = &'a mut LTerm<U, E>;
 
     fn next(&mut self) -> Option<Self::Item> {
+        let next = self.maybe_next.take()?;
+        if !next.is_list() {
+            // If the list is improper, it ends in non-cons term.
+            return Some(next);
+        }
+
         // Replace maybe_next in iterator with its tail and return head
-        match self.maybe_next.take().map(|x| x.as_mut()) {
-            Some(LTermInner::Cons(head, tail)) => {
-                if tail.is_empty() {
-                    // The iterator has finished the list after this one
-                    self.maybe_next = None;
-                } else {
-                    let _ = self.maybe_next.replace(tail);
+        match next.as_mut() {
+            LTermInner::Cons(head, tail) => {
+                if !tail.is_empty() {
+                    // The iterator has not finished the list after this one
+                    self.maybe_next = Some(tail);
                 }
 
                 Some(head)
             }
-            Some(LTermInner::Empty) => {
-                self.maybe_next = None;
-                None
-            }
-            Some(_) => {
-                // If the list is improper, it ends in non-cons term.
-                self.maybe_next.take()
-            }
-            _ => None, // Iterator is finished
+            _ => None, // The empty list
         }
     }
 }
